@@ -503,6 +503,28 @@ func suiteWire(c *Ctx) {
 			tS(ids[0], sign(ids[0], nvHdrRaw)), tR(protocol.LEAN_HELIX_PREPREPARE, inst, h, nv, hash), tS(ids[0], sign(ids[0], refRaw(protocol.LEAN_HELIX_PREPREPARE, nv))))
 		emit("newview", tNV, nvm, km)
 		c.Nontrivial(fmt.Sprintf("factory/votes/%d", len(vcms)))
+		// a history on ONE factory (the library keeps one per term): after the long NEW_VIEW header the same
+		// factory signs a VIEW_CHANGE with a proof, one without, and a NEW_VIEW with fewer votes, for the next view
+		nv2 := nv + 1
+		if nv == ^primitives.View(0) {
+			nv2 = nv
+		}
+		vcHdrRaw2 := func(proof *protocol.PreparedProofBuilder) []byte {
+			return (&protocol.ViewChangeHeaderBuilder{MessageType: protocol.LEAN_HELIX_VIEW_CHANGE, InstanceId: inst, BlockHeight: h, View: nv2, PreparedProof: proof}).Build().Raw()
+		}
+		vcmL := ldr.CreateViewChangeMessage(h, nv2, pmsgs)
+		emit("viewchange-proof-after-newview", fmt.Sprintf("VC(V(%d;%d;%d;%d;%s;%s))", uint16(protocol.LEAN_HELIX_VIEW_CHANGE), uint64(inst), uint64(h), uint64(nv2), tProof, tS(ids[0], sign(ids[0], vcHdrRaw2(proofB)))), vcmL, km)
+		vcmL0 := ldr.CreateViewChangeMessage(h, nv2, nil)
+		emit("viewchange-after-newview", fmt.Sprintf("VC(V(%d;%d;%d;%d;-;%s))", uint16(protocol.LEAN_HELIX_VIEW_CHANGE), uint64(inst), uint64(h), uint64(nv2), tS(ids[0], sign(ids[0], vcHdrRaw2(nil)))), vcmL0, km)
+		half := len(vcms) / 2
+		confs2 := interfaces.ExtractConfirmationsFromViewChangeMessages(vcms[:half])
+		ppc2 := ldr.CreatePreprepareMessageContentBuilder(h, nv2, blk, hash)
+		nvm2 := ldr.CreateNewViewMessage(h, nv2, ppc2, confs2, blk)
+		nvHdrRaw2 := (&protocol.NewViewHeaderBuilder{MessageType: protocol.LEAN_HELIX_NEW_VIEW, InstanceId: inst, BlockHeight: h, View: nv2,
+			ViewChangeConfirmations: interfaces.ExtractConfirmationsFromViewChangeMessages(vcms[:half])}).Build().Raw()
+		tNV2 := fmt.Sprintf("NV(%d;%d;%d;%d;[%s];%s;PPC(%s;%s))", uint16(protocol.LEAN_HELIX_NEW_VIEW), uint64(inst), uint64(h), uint64(nv2), strings.Join(tVs[:half], ","),
+			tS(ids[0], sign(ids[0], nvHdrRaw2)), tR(protocol.LEAN_HELIX_PREPREPARE, inst, h, nv2, hash), tS(ids[0], sign(ids[0], refRaw(protocol.LEAN_HELIX_PREPREPARE, nv2))))
+		emit("newview-after-newview", tNV2, nvm2, km)
 	}
 	// ---- Part B: builder level, whole field range, and mutated buffers
 	for i := 0; i < nB; i++ {
